@@ -130,8 +130,45 @@ def check_family(chk, kind, shapes, points, r, tag, subtypes=("float64",)):
                     example_points=impl_pts[:4]), cap=8)
 
 
+def value_equality(chk, r, tier):
+    """a point equals a point of the shape as a *number* pair: signed zeros and the coordinate subtype of either side do not matter
+    (scalar, array and restricted array forms)"""
+    from spatialpandas.geometry import MultiPointArray, PointArray
+    subs = ("float64", "float32", "int64", "int32", "int16")
+    cases = [([0.0, 0.0], [-0.0, 0.0]), ([-0.0, -0.0], [0.0, 0.0]), ([3.0, -0.0], [3.0, 0.0])]
+    for _ in range(6 if tier == "quick" else 40):
+        q = [r.randint(-50, 50), r.randint(-50, 50)]
+        cases.append((list(q), list(q)))
+        cases.append((list(q), [q[0] + r.choice((0, 1)), q[1] + 1]))
+    for a, b in cases:
+        want = (a[0] == b[0] and a[1] == b[1])
+        for sa in subs:
+            for sb in subs:
+                if (not sa.startswith("float") or not sb.startswith("float")) and any(str(v).startswith("-0") for v in a + b):
+                    continue
+                try:
+                    pa_ = PointArray(np.array([a, [99, 99]], dtype=sa))
+                    shape = PointArray(np.array([b], dtype=sb))[0]
+                    mshape = MultiPointArray([[7, 7] + list(b)], dtype=sb)[0]
+                    got = dict(scalar=bool(pa_[0].intersects(shape)), array=bool(pa_.intersects(shape)[0]),
+                               inds=bool(pa_.intersects(shape, inds=np.array([0]))[0]),
+                               scalar_multipoint=bool(pa_[0].intersects(mshape)), array_multipoint=bool(pa_.intersects(mshape)[0]))
+                except Exception as e:  # noqa: BLE001
+                    chk.violation(f"intersects/point/value-equality-raises-{common.err_kind(e)}", dict(api="Point.intersects", point=a, shape=b, subtypes=[sa, sb], error=repr(e)[:200]))
+                    continue
+                chk.evaluated()
+                bad = [k for k, v in got.items() if v != want]
+                if bad:
+                    cls = "signed-zero" if any(str(v).startswith("-0") for v in a + b) else ("same-subtype" if sa == sb else "mixed-subtypes")
+                    chk.violation(f"intersects/point/{bad[0]}-form/equal-numbers-compared-by-representation/{cls}",
+                                  dict(api="Point.intersects(Point)", point=a, shape=b, subtypes=[sa, sb], expected=want, got=got))
+                chk.nontriv(hash(("valeq", tuple(a), tuple(b), sa, sb)))
+    chk.count("value-equality-cases", len(cases))
+
+
 def run_cases(chk, tier):
     r = common.rng(PROP)
+    value_equality(chk, r, tier)
     fam = families(tier)
     for kind in SHAPE_KINDS:
         shapes, points = fam[kind]
